@@ -613,7 +613,7 @@ def extFin : Ext Rat → Except String Rat
   | .fin v => .ok v
   | _ => .error "non-finite-coefficient"
 
-def listM {α β : Type} (f : α → Except String β) : List α → Except String (List β)
+def listM {ε α β : Type} (f : α → Except ε β) : List α → Except ε (List β)
   | [] => .ok []
   | x :: xs => do let y ← f x; let ys ← listM f xs; pure (y :: ys)
 
